@@ -456,7 +456,7 @@ def run(ck, facts):
     ck.expect(not short and not brk, "R6", "find_top_level_attr/exhaustive-scan", "no short-circuit",
               "the #[diplomat::config] scan uses %s %s: only the first matching attribute of an item (or the first item) is applied, later stacked attributes silently lose to lower-precedence sources" % (short, brk), C.loc(fta))
     kinds = set()
-    for n in C.walk(fb):
+    for n in [x for b_ in C.bodies_inl(tool, fb, depth=2, exclude=[fta["path"]]) for x in C.walk(b_)]:     # the scan and the helpers it delegates to
         if n.get("k") == "match":
             for arm in n["arms"]:
                 v = (arm["pat"].get("v") or "")
